@@ -221,6 +221,7 @@ func (w *srvWorld) checkC08(active0 string) {
 		// a record delivered together with io.EOF is received before the end of
 		// the stream it announces: the server treats it as a final record
 		proven := msg.WithEOF
+		byOrder := false // proven only by the order of the channel (wording of the report)
 		settled := 1 << 30 // first quiescent point after the arrival: the reader has dealt with the record by then
 		for _, q := range w.qpoints {
 			if q > msg.Arrive {
@@ -255,6 +256,7 @@ func (w *srvWorld) checkC08(active0 string) {
 			}
 			if !raced {
 				proven = true
+				byOrder = settled >= fc && !msg.WithEOF
 			}
 		}
 		if !proven {
@@ -263,6 +265,9 @@ func (w *srvWorld) checkC08(active0 string) {
 		for _, m := range msg.Members {
 			if m.Kind == mNote && m.Enters == 0 {
 				how := "and dealt with (a quiescent point followed) before the first stop cause"
+				if byOrder {
+					how = "before the Recv that reported the end of the connection, unraced by a Stop or a failed Send, hence before the stop; first stop cause began"
+				}
 				if msg.WithEOF {
 					how = "as the final record of the stream (Recv returned it together with io.EOF, and no other stop cause came first), which is before the stop that this end of stream causes"
 				}
